@@ -52,16 +52,38 @@ fn lzw(data: &[u8]) -> Vec<u8> {
     weezl::encode::Encoder::with_tiff_size_switch(weezl::BitOrder::Msb, 8).encode(data).unwrap_or_default()
 }
 
-/// PNG "Up" predictor (12) over rows of `columns` bytes.
-fn png_up(data: &[u8], columns: usize) -> Vec<u8> {
+/// PNG predictor encoding over rows of `columns` bytes (one byte per pixel); the row filter
+/// type (None, Sub, Up, Average, Paeth) is drawn per row, as predictor 15 allows.
+fn png_rows(ctx: &Ctx, data: &[u8], columns: usize) -> Vec<u8> {
     let mut out = Vec::new();
     let mut prev = vec![0u8; columns];
     for row in data.chunks(columns) {
         let mut r = row.to_vec();
         r.resize(columns, 0);
-        out.push(2);
+        let ft = ctx.draw(W, 5, "png-row-filter") as u8;
+        out.push(ft);
         for i in 0..columns {
-            out.push(r[i].wrapping_sub(prev[i]));
+            let a = if i >= 1 { r[i - 1] } else { 0 } as i32;
+            let b = prev[i] as i32;
+            let c = if i >= 1 { prev[i - 1] } else { 0 } as i32;
+            let pred = match ft {
+                0 => 0,
+                1 => a,
+                2 => b,
+                3 => (a + b) / 2,
+                _ => {
+                    let p = a + b - c;
+                    let (pa, pb, pc) = ((p - a).abs(), (p - b).abs(), (p - c).abs());
+                    if pa <= pb && pa <= pc {
+                        a
+                    } else if pb <= pc {
+                        b
+                    } else {
+                        c
+                    }
+                }
+            };
+            out.push(r[i].wrapping_sub(pred as u8));
         }
         prev = r;
     }
@@ -136,9 +158,11 @@ fn rich_doc(ctx: &Ctx) -> MDoc {
                 }
                 1 => {
                     let columns = 1 + ctx.draw(W, 12, "pred-columns") as usize;
-                    data = flate(&png_up(&data, columns));
-                    filters.insert(0, name("FlateDecode"));
-                    parms.insert(0, MObj::Dict(vec![(nm("Predictor"), MObj::Int(12)), (nm("Columns"), MObj::Int(columns as i64))]));
+                    let rows = png_rows(ctx, &data, columns);
+                    let lzw_too = ctx.chance(W, 1, 3, "pred-lzw");
+                    data = if lzw_too { lzw(&rows) } else { flate(&rows) };
+                    filters.insert(0, name(if lzw_too { "LZWDecode" } else { "FlateDecode" }));
+                    parms.insert(0, MObj::Dict(vec![(nm("Predictor"), MObj::Int(10 + ctx.draw(W, 6, "predictor") as i64)), (nm("Columns"), MObj::Int(columns as i64))]));
                 }
                 2 => {
                     data = lzw(&data);
